@@ -717,6 +717,9 @@ class SB:
             if fam == "int":
                 v = str(rng.choice([rng.randrange(0, 10), rng.randrange(0, 200), rng.randrange(0, 100000)]))
                 keyv = int(v)
+            elif fam == "float":
+                v = rng.choice(["0.5", "1.5", "2.0", "10.0", "0.25", "100.0", "7.75", "3.0", "12.5", "0.125", "42.0", "1.0"])   # texts fix8 prints back unchanged
+                keyv = float(v)
             elif fam == "char":
                 v = rng.choice("ABCDEFGHJKLMNPQRSTUVWXYZ0123456789abcdefgh")
                 keyv = v
@@ -794,7 +797,10 @@ def gen_alltypes(rng):
     b.message("AllTypes", "AT", items)
     # enumerations
     eitems = []
-    for ty in ("INT", "CHAR", "STRING", "BOOLEAN", "MULTIPLEVALUESTRING", "SEQNUM", "CURRENCY", "EXCHANGE", "DAYOFMONTH"):
+    # a <value> list on every family RealmObject::create accepts: int-like, char-like, float-like, string-like
+    for ty in ("INT", "CHAR", "STRING", "BOOLEAN", "MULTIPLEVALUESTRING", "SEQNUM", "CURRENCY", "EXCHANGE", "DAYOFMONTH",
+               "FLOAT", "QTY", "PRICE", "PRICEOFFSET", "AMT", "PERCENTAGE", "TAGNUM", "NUMINGROUP", "COUNTRY",
+               "MULTIPLEVALUECHAR", "LANGUAGE"):
         eitems.append(("f", b.field(ty, "E%s" % ty.capitalize(), vals=b.enum_vals(ty, rng.randrange(2, 9))), rng.random() < 0.5))
     eitems.append(("f", b.field("INT", "ERange", vals=[("10", "lo", True), ("99", "hi", True)]), False))
     eitems.append(("f", b.field("INT", "ENeg", vals=[("5", "five", False), ("-3", "minus", False), ("0", "", False)]), False))
@@ -851,7 +857,7 @@ def gen_random(rng, size=1.0):
     pool = []
     for _ in range(npool):
         ty = rng.choice(PLAIN_TYPES + ["STRING", "INT"])
-        vals = b.enum_vals(ty, rng.randrange(2, 7)) if (TYPE_FAMILY.get(ty) in ("int", "char", "bool") or ty in ("STRING", "CURRENCY", "EXCHANGE")) and rng.random() < 0.3 else []
+        vals = b.enum_vals(ty, rng.randrange(2, 7)) if (TYPE_FAMILY.get(ty) in ("int", "char", "bool", "float") or ty in ("STRING", "CURRENCY", "EXCHANGE")) and rng.random() < 0.3 else []
         pool.append(b.field(ty, vals=vals))
     rng.shuffle(pool)
     free = list(pool)
@@ -1077,6 +1083,26 @@ def gen_c14(rng, fixed_pair=True):
     nest_pair("DeepAdded", 3, "added")
     nest_pair("NestHigh", 2, "high16")
     nest_pair("DeepHigh", 3, "high16")
+    # ONE message using a count field at two places with two different definitions (message level +
+    # nested at depth 1 / depth 2, two sibling groups), and the control where both are the same
+    def twice(tag, shape, same=False):
+        k[0] += 1
+        cf, cl, cm, cs = (b.field("NUMINGROUP") for _ in range(4))
+        f = [b.field("STRING"), b.field("INT"), b.field("QTY"), b.field("CHAR")]
+        l = [b.field("STRING"), b.field("INT"), b.field("STRING"), b.field("STRING")]
+        da = ("g", cf, False, [("f", f[0], True), ("f", f[1], False)])
+        db = da if same else ("g", cf, True, [("f", f[0], True), ("f", f[2], False), ("f", f[3], True)])
+        if shape == 1:
+            its = [("f", l[3], False), da, ("g", cl, False, [("f", l[0], True), db, ("f", l[1], False)])]
+        elif shape == 2:
+            its = [da, ("g", cl, True, [("f", l[0], True), ("g", cs, False, [("f", l[2], True), db])]), ("f", l[3], False)]
+        else:
+            its = [("g", cl, False, [("f", l[0], True), da]), ("f", l[3], True), ("g", cm, False, [("f", l[2], True), db])]
+        b.message("%sTwice" % tag, "t%d" % k[0], its)
+    twice("Level1", 1)
+    twice("Level2", 2)
+    twice("Sibling", 3)
+    twice("SameDef", 1, same=True)
     # controls: identical definitions (sharing is legitimate), and different members (no sharing)
     cnt = b.field("NUMINGROUP")
     m = [b.field("STRING"), b.field("INT")]
